@@ -109,6 +109,10 @@ fn plants(rng: &mut Rng, per_cell: usize) -> Vec<Plant> {
             ("serde-flatten", "struct-field", format!("#[typeshare]\npub struct Victim {{\n    pub ok: u8,\n    {sk}    #[serde(flatten)]\n    pub bad: Fine,\n}}\n"), true),
             ("serde-flatten-merged", "struct-field", format!("#[typeshare]\npub struct Victim {{\n    pub ok: u8,\n    {sk}    #[serde(default, flatten)]\n    pub bad: Fine,\n}}\n"), true),
             ("serde-flatten-second-attr", "struct-field", format!("#[typeshare]\npub struct Victim {{\n    pub ok: u8,\n    {sk}    #[serde(default)]\n    #[serde(flatten)]\n    pub bad: Fine,\n}}\n"), true),
+            // flatten on a field whose type is given by serialized_as (both attribute orders): still a flattened field
+            ("serde-flatten-with-serialized-as", "struct-field", format!("#[typeshare]\npub struct Victim {{\n    pub ok: u8,\n    {sk}    #[serde(flatten)]\n    #[typeshare(serialized_as = \"HashMap<String, String>\")]\n    pub bad: Fine,\n}}\n"), true),
+            ("serde-flatten-after-serialized-as", "struct-field", format!("#[typeshare]\npub struct Victim {{\n    pub ok: u8,\n    {sk}    #[typeshare(serialized_as = \"Fine\")]\n    #[serde(rename = \"other\", flatten)]\n    pub bad: Color,\n}}\n"), true),
+            ("serde-flatten-with-serialized-as", "struct-variant-field", format!("#[typeshare]\n#[serde(tag = \"t\", content = \"c\")]\npub enum Victim {{\n    A,\n    B {{\n        ok: u8,\n        {sk}        #[typeshare(serialized_as = \"Fine\")]\n        #[serde(flatten)]\n        bad: Color,\n    }},\n}}\n"), true),
             ("serde-flatten", "struct-variant-field", format!("#[typeshare]\n#[serde(tag = \"t\", content = \"c\")]\npub enum Victim {{\n    A,\n    B {{\n        ok: u8,\n        {sk}        #[serde(flatten)]\n        bad: Fine,\n    }},\n}}\n"), true),
         ];
         // a data-carrying variant in an enum without tag/content: unsupported; under skip the rest is a plain unit enum
@@ -342,7 +346,7 @@ pub fn run(ctx: &Ctx) -> (Spec, Report) {
     let _ = std::fs::remove_dir_all(&scratch);
     let spec = Spec {
         level: "fault_enumeration",
-        rule: format!("a supported background program plus exactly one planted unsupported construct: {{u64, i64, usize, isize, tuple type in four spellings (plain, trailing comma, one element, nested)}} x 10 positions (struct field, struct-variant field, newtype payload, generic argument, alias target, serialized_as on a struct field / item / tuple-struct field / variant payload / struct-variant field) x wrapper chains of depth 0-5 (Vec, Option, HashMap key/value, Box, array, slice, reference, user generic) x {{no skip, serde(skip), typeshare(skip), and at depths 0 and 3 either one among other arguments of the attribute (before / after a name-value or list argument) or in a second serde attribute}}, plus tuple structs / variants, serde(flatten) in 3 spellings and 2 positions, data enums without tag/content, tag/content on unit enums and 9 non-integer-literal consts: {} plants x 6 languages through the library (must be rejected with an error naming the file; skipped twins must succeed), and {n_cli} cells through the real binary under strace with and without a pre-existing output, single- and multi-file, alone or with valid sibling files of the same crate, the offending item next to accepted items or as the only annotated item of its file, and bystander crates, delivered to the collector in arrival, reversed or seeded order (no create/truncate/write/rename/unlink/mkdir event on the output location, bytes/mtime/inode unchanged); distinct = (construct, position, depth, skip, outcome)", all.len()),
+        rule: format!("a supported background program plus exactly one planted unsupported construct: {{u64, i64, usize, isize, tuple type in four spellings (plain, trailing comma, one element, nested)}} x 10 positions (struct field, struct-variant field, newtype payload, generic argument, alias target, serialized_as on a struct field / item / tuple-struct field / variant payload / struct-variant field) x wrapper chains of depth 0-5 (Vec, Option, HashMap key/value, Box, array, slice, reference, user generic) x {{no skip, serde(skip), typeshare(skip), and at depths 0 and 3 either one among other arguments of the attribute (before / after a name-value or list argument) or in a second serde attribute}}, plus tuple structs / variants, serde(flatten) in 3 spellings and 2 positions, alone and next to serialized_as, data enums without tag/content, tag/content on unit enums and 9 non-integer-literal consts: {} plants x 6 languages through the library (must be rejected with an error naming the file; skipped twins must succeed), and {n_cli} cells through the real binary under strace with and without a pre-existing output, single- and multi-file, alone or with valid sibling files of the same crate, the offending item next to accepted items or as the only annotated item of its file, and bystander crates, delivered to the collector in arrival, reversed or seeded order (no create/truncate/write/rename/unlink/mkdir event on the output location, bytes/mtime/inode unchanged); distinct = (construct, position, depth, skip, outcome)", all.len()),
         assumptions: vec![
             "consts are planted only for backends with const support (TypeScript, Go, Python)".into(),
             "a run that panics or hangs is C07's finding and counted as inconclusive here".into(),
